@@ -54,6 +54,7 @@ TABLE = [
     ("anchored-literal matcher respects newlines", "C01 C02", "`^/.*\\.php$` matched \"/a\\nb.php\"; (?m) anchors compared against the whole input"),
     ("4-byte UTF-8 ranges are compiled exactly", "C15", "`[\\x{10005}-\\x{FEE20}]` accepted U+10004 (unaligned range descriptors of MC_UTF8)"),
     ("copy-on-write reference before the sibling branch", "C07 C03", "`(?:([ab])-){1,2}(b)` on \"a-b\": group 1 = [2 1], ReplaceAll panicked (named / repeated group shapes of the CAP family)"),
+    ("backtracking composite searcher is only used on short inputs", "C05", "`[ab]+[ab]{2,}[a0]+` on 4200 bytes of \"b\": Match + FindIndex took 80 s (cubic; found when the long-input stage of the search checks stopped finishing)"),
     ("only accepts branches it can match exactly", "C19 C02", "`^([à-ÿ]+|x\\d)` on \"x1\" = [0 1]; `^(foo|bar|baz)` matched \"bax\""),
 ]
 
